@@ -145,6 +145,8 @@ pub enum SampleMode {
     /// samples are a smooth function of position plus noise; only valid with a single-leaf
     /// Zero-predictor tree and no transforms (the generator then knows every sample)
     Known,
+    /// no sample data at all: every section ends right after its headers (hostile / extreme inputs)
+    Empty,
 }
 
 #[derive(Clone, Debug, Serialize, Deserialize)]
@@ -457,6 +459,9 @@ pub fn section_layout(prog: &Program, f: &FrameSpec, chans: &[Chan], nb_meta: us
     let grows = chh.div_ceil(gd);
     let lcols = cw.div_ceil(gd * 8);
     let lrows = chh.div_ceil(gd * 8);
+    if gcols as u64 * grows as u64 * f.passes.num_passes as u64 > 70_000 {
+        return None;
+    }
     let num_groups = gcols * grows;
     let num_lf_groups = lcols * lrows;
     let mut lay = SectionLayout {
@@ -884,6 +889,7 @@ impl Program {
     fn write_samples(&self, w: &mut BitWriter, m: &ModularSpec, ma: &MaSpec, chans: &[Chan], rng: &mut Rng, stream_salt: u64) {
         let coder = &ma.coder;
         match m.mode {
+            SampleMode::Empty => {}
             SampleMode::Known => {
                 for (ci, c) in chans.iter().enumerate() {
                     for y in 0..c.h {
